@@ -1126,6 +1126,10 @@ func (fr *Frame) copyBuiltin(cc *ssa.CallCommon, args []Val, st *State, g *Term)
 	c.assumeG(g, mk(SBool, fmt.Sprintf("(forall ((j Int)) (! (= (select %s j) (ite (and (<= (s.off %s) j) (< j (+ (s.off %s) %s))) %s (select %s j))) :pattern ((select %s j))))",
 		newArr.S, d.S, d.S, n.S, srcElem(fmt.Sprintf("(- j (s.off %s))", d.S)), oldArr.S, newArr.S)))
 	c.heapSet(st, en, tStore(c.heapGet(st, en), mk(SInt, "(s.arr "+d.S+")"), newArr))
+	if ploc := fr.arrSlices[d.S]; ploc != nil {
+		// the destination is x[:] of an array x: the array itself receives the bytes
+		c.store(st, ploc, newArr)
+	}
 	return tv(n)
 }
 
